@@ -221,6 +221,10 @@ def compare_states(state, fresh, version, fresh_v2=None, sorts=None, rejected=()
                     cls += ":after-rejected-assignment"
                 elif outside(assigned.get(key), fresh.get("ranges", {}).get(key)):
                     cls += ":user-value-outside-moved-range"
+                elif sorts.get(key) in ("int", "hex", "float") and key in fresh.get("values", {}) and fresh["values"][key] is None:
+                    # the option has no value at all (JSON null): it is saved as `CONFIG_X=` -- unmarked when it still
+                    # holds an (ineffective, e.g. hidden) user value -- and an empty right-hand side cannot be loaded
+                    cls += ":valueless-numeric-option"
             found.append((cls, item[1]))
 
     problems = _P()
